@@ -6,7 +6,7 @@ TB = ("Trusted: Lean 4.33 kernel with axioms propext/Classical.choice/Quot.sound
 claim('C12', 'Lean 4 theorems over a hand model of find_line + translated block arithmetic + the pattern-selection model; in-process differential correspondence; --blocksz oracle on the binary',
       "Machine-checked for all block sizes >= 1, all byte strings, all offsets: translated block arithmetic laws, find_line returns exactly the line "
       "containing the offset (bounds, bytes, parts in bounds and contiguous), lines tile the file, the in-block variant is sound; the message layer of the model "
-      "is block-free. The model is tied to the code by exhaustive small-file and random-history differential runs of the real LineReader, and the binary is run at many "
+      "is block-free; for accounting files the whole reader output (layout error or the sequence sent, counters, first offset) is a function of the file, layout and window only, hence equal at any two block sizes and equal between a plain and a gz/bz2/lz4 reader (C12_fixed_blocksz_independent, C12_fixed_plain_vs_streamed over the FixedWalk model; tie fwalk). The model is tied to the code by exhaustive small-file and random-history differential runs of the real LineReader, and the binary is run at many "
       "--blocksz values against the default. The bs-dependent acceptance gate is outside these theorems (known findings F1, F2). Which datetime pattern a file is read with is modelled with "
       "constants regenerated from syslinereader.rs/syslogprocessor.rs (PatSelSpec): for a one-notation file the chosen row and every date are independent of how many lines block zero holds "
       "(C04_single_notation_blocksize_independent); for mixed notations they are not (C04_mixed_notation_full_false = known finding F30); tie: component patsel (real SyslineReader/SyslogProcessor).",
@@ -61,7 +61,7 @@ claim('C08', 'Lean 4 theorems on the ordered-map insert/drain model, on the time
       "windows) with its printed order compared with the model; each line must show the record's own fields. The text of a record is proved as well (FixedRenderSpec): every arm of "
       "FixedStruct::as_bytes is translated into a render program on every run (fields resolved from the struct definitions, the 14 writer macros pinned) and, for all 16 layouts, every read lies inside the one "
       "field the op names and inside the record (the line of record k depends on record k's bytes only), the line is label/value pieces with distinct labels and canonical values, shown + omitted = all fields, every "
-      "number is read with its declared type, the datetime shown is the sort-key field; tie: real FixedStruct::new + as_bytes on 8k-64k records per run, byte for byte. The record WALK is modelled too (FixedWalkSpec, facts regenerated from blockreader.rs / fixedstructreader.rs / s4.rs): read_data_to_buffer returns exactly d[beg,end) (proved for requests spanning at most two blocks, i.e. block size >= record size; the many-block arm is modelled and tied but not proved), preprocess_timevalues builds exactly the map of the non-null in-window records keyed (time, offset) with exact counters for every block size >= the time field, and the worker loop over process_entry_at emits one entry per key in ascending (time, offset) order with bytes d[fo,fo+sz) whether served from the score_file cache or read afresh, going on after a record FixedStruct::new rejects (walk_spec; C08_walk_is_stable_sort ties it to the stable sort); drop_entry never makes a later read wrong, streamed files keep their blocks (counter-model = F24); tie fwalk: real FixedStructReader::new / fileoffset_first / process_entry_at / summary on every layout x block sizes from 1 x windows x plain|gz, and direct read_data_to_buffer call sequences. Known finding F12 (stray NUL after each record).",
+      "number is read with its declared type, the datetime shown is the sort-key field; tie: real FixedStruct::new + as_bytes on 8k-64k records per run, byte for byte. The record WALK is modelled too (FixedWalkSpec, facts regenerated from blockreader.rs / fixedstructreader.rs / s4.rs): read_data_to_buffer returns exactly d[beg,end) for EVERY block size >= 1 and every request, any number of blocks spanned (readData_spec_any; nine off-by-one edits of the many-block arm proved wrong), preprocess_timevalues builds exactly the map of the non-null in-window records keyed (time, offset) with exact counters for every block size, and the worker loop over process_entry_at emits one entry per key in ascending (time, offset) order with bytes d[fo,fo+sz) whether served from the score_file cache or read afresh, going on after a record FixedStruct::new rejects (walk_spec; C08_walk_is_stable_sort ties it to the stable sort); drop_entry never makes a later read wrong, streamed files keep their blocks (counter-model = F24); tie fwalk: real FixedStructReader::new / fileoffset_first / process_entry_at / summary on every layout x block sizes from 1 x windows x plain|gz, and direct read_data_to_buffer call sequences. Known finding F12 (stray NUL after each record).",
       TB + "Modelled not verified: layout detection (score_file); layouts other than Linux utmpx / acct_v3 / lastlog are tied in-process only (time value and text).",
       "DESIGN.md §6 C08")
 
